@@ -156,6 +156,9 @@ var _ = fmt.Sprint
 
 // threadRole names a thread by what it is in netpoll (stable under line shifts).
 func threadRole(ex *vsched.Exec, id int) string {
+	if id < 0 {
+		return "timer"
+	}
 	n := ex.Threads()[id].Name
 	switch {
 	case n == "task":
